@@ -142,17 +142,29 @@ def encLeaf (pk : Nibs) (hashed : Bool) (v : Bytes) : Bytes :=
   (if hashed then header 0x20 0x1f pk.length else header 0x40 0x3f pk.length)
     ++ packNibs pk ++ valueBytes hashed v
 
+/-- header of a branch: without value, with hashed value, with inline value -/
+def branchHeader (v : Option (Bool × Bytes)) (n : Nat) : Bytes :=
+  match v with
+  | none => header 0x80 0x3f n
+  | some (true, _) => header 0x10 0x0f n
+  | some (false, _) => header 0xc0 0x3f n
+
+def optValueBytes : Option (Bool × Bytes) → Bytes
+  | none => []
+  | some (hd, b) => valueBytes hd b
+
+/-- SCALE bytes of a child's node data; nothing for a nil child -/
+def kidBytes : Option Bytes → Bytes
+  | none => []
+  | some d => scaleBytes d
+
 /-- `kids i` = node data of child `i` (its hash or its inlined encoding) -/
 def encBranch (pk : Nibs) (v : Option (Bool × Bytes)) (kids : Nib → Option Bytes) : Bytes :=
-  (match v with
-    | none => header 0x80 0x3f pk.length
-    | some (true, _) => header 0x10 0x0f pk.length
-    | some (false, _) => header 0xc0 0x3f pk.length)
+  branchHeader v pk.length
     ++ packNibs pk
     ++ leBytes 2 (((List.finRange 16).map (fun i => if (kids i).isSome then 2 ^ i.val else 0)).sum)
-    ++ (match v with | none => [] | some (hd, b) => valueBytes hd b)
-    ++ (List.finRange 16).flatMap (fun i =>
-          match kids i with | none => [] | some d => scaleBytes d)
+    ++ optValueBytes v
+    ++ (List.finRange 16).flatMap (fun i => kidBytes (kids i))
 
 /-- `H.Length()` -/
 def hashLen : Nat := 32
@@ -720,24 +732,46 @@ def joinWith (sep : String) : List String → String
   | [a] => a
   | a :: r => a ++ sep ++ joinWith sep r
 
-/-- one op on the model: new state and observable; `none` state = the op panicked -/
-def stepModel (c : Cfg) (s : St) : Op → Option St × String
-  | .put k v =>
-    (match doPut c s k v with
-      | .ok s' => (some s', "ok") | .err => (some s, "err") | .panic => (none, "panic"))
-  | .del k =>
-    (match doDel c s k with
-      | .ok s' => (some s', "ok") | .err => (some s, "err") | .panic => (none, "panic"))
-  | .get k => (some s, showOpt (doGet c s k))
-  | .commit =>
-    (match commit c.H s with
-      | .ok s' => (some s', toHex s'.rootHash ++ ",eq") | .err => (some s, "err")
-      | .panic => (none, "panic"))
-  | .reopen =>
-    (match commit c.H s with
-      | .ok s' => (some (reopenAt s'), toHex s'.rootHash ++ ",eq") | .err => (some s, "err")
-      | .panic => (none, "panic"))
-  | .bad => (some s, "bad-op")
+def Res.map {α β : Type} (f : α → β) : Res α → Res β
+  | .ok a => .ok (f a)
+  | .err => .err
+  | .panic => .panic
+
+/-- the effect of one op of the line on the `TrieDB` (`reopen` = `Hash()`, then a fresh
+    `NewTrieDB(root, db)`) -/
+def execOp (c : Cfg) (s : St) : Op → Res St
+  | .put k v => doPut c s k v
+  | .del k => doDel c s k
+  | .get _ => .ok s
+  | .commit => commit c.H s
+  | .reopen => (commit c.H s).map reopenAt
+  | .bad => .ok s
+
+/-- the whole history; stops at the first error or panic -/
+def execAll (c : Cfg) (s : St) : List Op → Res St
+  | [] => .ok s
+  | op :: r =>
+    match execOp c s op with
+    | .ok s' => execAll c s' r
+    | .err => .err
+    | .panic => .panic
+
+/-- what the harness prints for an op that went through, given the states before and after -/
+def showOp (c : Cfg) (s s' : St) : Op → String
+  | .put _ _ => "ok"
+  | .del _ => "ok"
+  | .get k => showOpt (doGet c s k)
+  | .commit => toHex s'.rootHash ++ ",eq"
+  | .reopen => toHex s'.rootHash ++ ",eq"
+  | .bad => "bad-op"
+
+/-- one op on the model: new state and observable; `none` state = the op panicked.  After a Go
+    `error` the harness goes on with the instance as it is; the model keeps the state before the op. -/
+def stepModel (c : Cfg) (s : St) (op : Op) : Option St × String :=
+  match execOp c s op with
+  | .ok s' => (some s', showOp c s s' op)
+  | .err => (some s, "err")
+  | .panic => (none, "panic")
 
 /-- sorted, duplicate-free insertion (Go: keys of a map, `sort.Strings`) -/
 def insKey (k : Bytes) : List Bytes → List Bytes
@@ -782,13 +816,24 @@ def runModel (c : Cfg) (ops : List Op) : List String := runModelFrom c (St.init 
 
 /-! ### the specification: an ordered map and its Merkle root -/
 
-def stepSpec (ver : Ver) (H : Bytes → Bytes) (m : Entries) : Op → Entries × String
-  | .put k v => (OMap.upsert k v m, "ok")
-  | .del k => (OMap.erase k m, "ok")
-  | .get k => (m, showOpt (OMap.get k m))
-  | .commit => (m, toHex (specRoot ver H m) ++ ",eq")
-  | .reopen => (m, toHex (specRoot ver H m) ++ ",eq")
-  | .bad => (m, "bad-op")
+/-- the map after one op -/
+def specStep (m : Entries) : Op → Entries
+  | .put k v => OMap.upsert k v m
+  | .del k => OMap.erase k m
+  | _ => m
+
+/-- the map after a history -/
+def specAll (m : Entries) (ops : List Op) : Entries := ops.foldl specStep m
+
+def stepSpec (ver : Ver) (H : Bytes → Bytes) (m : Entries) (op : Op) : Entries × String :=
+  (specStep m op,
+    match op with
+    | .put _ _ => "ok"
+    | .del _ => "ok"
+    | .get k => showOpt (OMap.get k m)
+    | .commit => toHex (specRoot ver H m) ++ ",eq"
+    | .reopen => toHex (specRoot ver H m) ++ ",eq"
+    | .bad => "bad-op")
 
 def finalSpec (ver : Ver) (H : Bytes → Bytes) (m : Entries) (ops : List Op) : String :=
   "F=" ++ toHex (specRoot ver H m) ++ ",eq," ++
